@@ -1,4 +1,5 @@
 import Driver.Pure
+import Driver.Flow
 /-!
   Model driver: one command per input line, one output line per command.
   `lake build driver && .lake/build/bin/driver < ops.txt`
@@ -7,6 +8,7 @@ open Driver
 
 structure DState where
   pure : PureState := {}
+  flow : FlowState := {}
 
 def stepLine (st : DState) (line : String) : DState × String :=
   match (line.trimAscii.toString.splitOn " ").filter (· ≠ "") with
@@ -14,7 +16,10 @@ def stepLine (st : DState) (line : String) : DState × String :=
   | cmd :: args =>
     match pureCmd st.pure cmd args with
     | some (p, out) => ({ st with pure := p }, out)
-    | none => (st, "bad-op")
+    | none =>
+      match flowCmd st.flow cmd args with
+      | some (f, out) => ({ st with flow := f }, out)
+      | none => (st, "bad-op")
 
 partial def loop (h : IO.FS.Stream) (out : IO.FS.Stream) (st : DState) : IO Unit := do
   let line ← h.getLine
